@@ -1181,6 +1181,36 @@ func (r *vC11Run) loadUser(name string) auth.User {
 	return u
 }
 
+func vC11LongSession(h *vC11H, name string, oneTime bool) *vC11Scn {
+	return &vC11Scn{name: name, path: "session", primary: "session",
+		prep: func(r *vC11Run) { r.mkUser(r.user, "c11a") },
+		act: func(r *vC11Run) error {
+			a := h.db.Authenticator(h.ctx)
+			u, err := a.GetUser(r.user)
+			if err != nil {
+				return err
+			}
+			s, err := a.CreateSession(h.ctx, u, 31*24*time.Hour, oneTime)
+			if s != nil {
+				r.sess = s.ID
+			}
+			return err
+		},
+		rb: func(r *vC11Run) [][3]string {
+			got := "none"
+			if r.sess != "" {
+				a := h.db.Authenticator(h.ctx)
+				if s, u, err := a.GetSession(r.sess); err == nil && s != nil && u != nil {
+					got = u.Name()
+					if exp, err := h.metaRaw.GetExpiry(h.ctx, a.DocIDForSession(r.sess)); err == nil && exp != 0 && int64(exp) <= time.Now().Unix() {
+						got += " (already expired for the bucket)"
+					}
+				}
+			}
+			return [][3]string{{"session", r.user, got}}
+		}}
+}
+
 func vC11Scenarios(h *vC11H) []*vC11Scn {
 	rejection := func(name string, body func(r *vC11Run) Body) *vC11Scn {
 		return &vC11Scn{name: name, primary: "doc", noFault: true,
@@ -1663,6 +1693,11 @@ func vC11Scenarios(h *vC11H) []*vC11Scn {
 				}
 				return [][3]string{{"session", r.user, got}}
 			}},
+		// a TTL above 30 days: the bucket reads such an expiry value as an absolute time, so the session must have been stored
+		// with one.  Read-back: the session is found AND the bucket itself does not consider the document expired (Rosmar
+		// removes expired documents asynchronously; its own expiry metadata is the deterministic form of "a later read sees it")
+		vC11LongSession(h, "session_create_long", false),
+		vC11LongSession(h, "session_create_long_onetime", true),
 		{name: "session_delete", path: "session", primary: "session",
 			prep: func(r *vC11Run) {
 				r.mkUser(r.user, "c11a")
